@@ -426,8 +426,10 @@ spif_socket_accept(spif_socket_t self)
 
     ASSERT_RVAL(!SPIF_SOCKET_ISNULL(self), (spif_socket_t) NULL);
 
-    addr = SPIF_ALLOC(sockaddr);
-    len = SPIF_SIZEOF_TYPE(sockaddr);
+    /* Room for the largest address we handle (AF_UNIX), zeroed so that sun_path is always terminated. */
+    len = SPIF_SIZEOF_TYPE(unixsockaddr);
+    addr = (spif_sockaddr_t) MALLOC(len + 1);
+    memset(addr, 0, len + 1);
     do {
         newfd = accept(self->fd, addr, &len);
     } while ((newfd < 0) && ((errno == EAGAIN) || (errno == EWOULDBLOCK)));
